@@ -3,7 +3,7 @@
  * gb_alloc(n): n usable bytes whose END is immediately followed by a PROT_NONE
  * page (writes/reads at offset >= n fault); gb_alloc_front(n): the page BEFORE
  * the buffer is PROT_NONE.  GUARDED(stmt) runs stmt and evaluates to 1 if it
- * raised SIGSEGV/SIGBUS (recorded in g_fault_*), 2 on SIGALRM (hang), 3 on
+ * raised SIGSEGV/SIGBUS (recorded in g_fault_*), 2 on SIGPROF / SIGALRM (hang: CPU-time budget), 3 on
  * SIGABRT (assert / sanitizer abort), 0 otherwise.  None of these outcomes is
  * an action of the specification, so the trace spec rejects them. */
 #ifndef VERIF_GUARD_H
@@ -16,6 +16,7 @@
 #include <stdlib.h>
 #include <string.h>
 #include <sys/mman.h>
+#include <sys/time.h>
 #include <unistd.h>
 
 #define GB_PAGE 4096UL
@@ -99,7 +100,7 @@ static void g_handler(int sig, siginfo_t *si, void *ctx) {
     g_armed = 0;
     g_fault_sig = sig;
     g_fault_addr = (uintptr_t)si->si_addr;
-    siglongjmp(g_jb, sig == SIGALRM ? 2 : sig == SIGABRT ? 3 : 1);
+    siglongjmp(g_jb, (sig == SIGALRM || sig == SIGPROF) ? 2 : sig == SIGABRT ? 3 : 1);
 }
 
 static inline void guard_install(void) {
@@ -117,6 +118,7 @@ static inline void guard_install(void) {
     sigaction(SIGSEGV, &sa, NULL);
     sigaction(SIGBUS, &sa, NULL);
     sigaction(SIGALRM, &sa, NULL);
+    sigaction(SIGPROF, &sa, NULL);
     sigaction(SIGABRT, &sa, NULL);
     sigaction(SIGFPE, &sa, NULL);
     sigaction(SIGILL, &sa, NULL);
@@ -130,11 +132,28 @@ static inline void guard_install(void) {
 #endif
 static int g_rc;
 #define GUARD_SECS 10
+static unsigned g_guard_secs = GUARD_SECS; /* a driver raises it around a deliberately long call */
+/* A call "hangs" when it burns g_guard_secs of CPU time (ITIMER_PROF: a busy
+ * machine that deschedules the process does not count), or, as a backstop for
+ * a call that blocks without burning CPU, 40x that in wall-clock time. */
+static inline void guard_arm(unsigned secs) {
+    struct itimerval it;
+    memset(&it, 0, sizeof(it));
+    it.it_value.tv_sec = secs;
+    setitimer(ITIMER_PROF, &it, NULL);
+    alarm(secs * 40);
+}
+static inline void guard_disarm(void) {
+    struct itimerval it;
+    memset(&it, 0, sizeof(it));
+    setitimer(ITIMER_PROF, &it, NULL);
+    alarm(0);
+}
 #define GUARDED(stmt)                                                          \
     (g_rc = sigsetjmp(g_jb, 1),                                                \
-     g_rc == 0 ? (g_armed = 1, alarm(GUARD_SECS), G_SHIM(1), (void)(stmt),     \
-                  G_SHIM(0), alarm(0), g_armed = 0, 0)                         \
-               : (G_SHIM(0), alarm(0), g_rc))
+     g_rc == 0 ? (g_armed = 1, guard_arm(g_guard_secs), G_SHIM(1), (void)(stmt), \
+                  G_SHIM(0), guard_disarm(), g_armed = 0, 0)                   \
+               : (G_SHIM(0), guard_disarm(), g_rc))
 
 /* where did the fault land relative to a buffer? offset or -1 */
 static inline long gb_fault_off(const gbuf *g) {
